@@ -222,6 +222,61 @@ func runC09(w *World, r *Report) {
 		}
 	}
 
+	// 3b. only tips are ever deleted outside truncation
+	r.rule("delete-only-tips", "DeleteVertex outside truncate removes only a vertex that cannot have children: the one just inserted, one taken from GetLeaves(), or one behind IsLeaf(same id) == true", 4)
+	for _, fn := range w.RepoFuncs("accountant") {
+		if fn.Name() == "truncate" {
+			continue
+		}
+		for _, d := range callsTo(fn, nDeleteVertex) {
+			_, da := callArgs(d)
+			x, ok := vertexOfHashArg(da[0])
+			key := shortFn(fn) + "/DeleteVertex"
+			if !ok {
+				r.undecided("delete-only-tips", key, lineOf(w, d), "deleted vertex must be identifiable", pathOf(da[0]))
+				continue
+			}
+			v := pathOf(x)
+			why := ""
+			good := false
+			// (a) just inserted in this function
+			for _, s := range callsTo(fn, nAddVertexByID) {
+				_, sa := callArgs(s)
+				if pathOf(sa[1]) == v && behind(d, passErrNil(s)) {
+					good = true
+				}
+			}
+			// (b) taken from GetLeaves()
+			for _, o := range origins(x) {
+				if c, isCall := o.(*ssa.Call); isCall && calleeName(c) == dagM("GetLeaves") {
+					good = true
+				}
+			}
+			// (c) behind IsLeaf(id) == true where id is the id the vertex was looked up with
+			if !good {
+				var lookupArg string
+				for _, o := range origins(x) {
+					if ex, isEx := o.(*ssa.Extract); isEx {
+						if gc, isCall := ex.Tuple.(*ssa.Call); isCall && calleeName(gc) == nGetVertex {
+							_, ga := callArgs(gc)
+							lookupArg = pathOf(ga[0])
+						}
+					}
+				}
+				var leafE []Edge
+				for _, c := range callsTo(fn, dagM("IsLeaf")) {
+					_, la := callArgs(c)
+					if lookupArg != "" && pathOf(la[0]) == lookupArg {
+						leafE = append(leafE, passBool(c, 0, true)...)
+					}
+				}
+				good = behind(d, leafE)
+				why = fmt.Sprintf("vertex %s looked up by %q is deleted without IsLeaf(%s) == true on the path: its children would keep a parent that is neither live nor checkpointed", v, lookupArg, lookupArg)
+			}
+			r.check(good, "delete-only-tips", key+"("+v+")", lineOf(w, d), "only childless vertices are removed from the live DAG", why)
+		}
+	}
+
 	// 4. both parents exist before admission
 	r.rule("parents-exist", "addLeafMemorized: the insertion is reachable only after the loop over {Left,Right}ParentHash completed, and every iteration crosses the found-edge of GetVertex for its element", 3)
 	if f := w.fx(r, "accountant", "AccountingBook", "addLeafMemorized"); f != nil {
